@@ -2,35 +2,58 @@
 C02 (d) — "While a mapping is in effect its trigger keys are consumed: such a key is held on the
 virtual keyboard only if some mapping in effect outputs it."
 
-FULL STATEMENT (every layout): `C02d_statement`.  It is FALSE of the model and of the code for some
-layouts with absorbing mappings (known finding D5, `C02d_counterexample`, kernel-checked): inside
-`add_new_mapping`, `release_absorbed_keys` can hand a key back to pass-through after the consumption
-step already ran.  PROVED: `C02d_partial` — every layout without absorbing mappings, every history
-of key events, every reachable state.
+FULL STATEMENT (every layout): `C02d_statement`, PROVED as `C02d` / `C02d_full` for every layout, every
+history of key events, every reachable state — for the code WITH the fix of finding D5
+(`consume_pass_through_keys` runs once more after `release_absorbed_keys` inside `add_new_mapping`;
+model: `addPhase2`).  Before the fix the statement was false for some layouts with absorbing mappings:
+`release_absorbed_keys` could hand a key back to pass-through after the consumption step had already
+run (witness `d5Layout` / `d5History`, now the regression check `C02d_d5_fixed`).
+`C02d_partial` (layouts without absorbing mappings) is kept as a corollary.
 -/
 import TmVerif.Proofs.Consumed
 import TmVerif.Props.C02
 
 namespace TmVerif
 
-/-- the full statement (kept visible; refuted below for absorbing layouts) -/
+/-- the full statement -/
 def C02d_statement : Prop :=
   ∀ (L : Layout) (x : Sys), ReachableEv L x →
     ∀ m, m ∈ x.s.active → ∀ k, k ∈ m.frm → k ∈ x.V → ∃ m2, m2 ∈ x.s.active ∧ k ∈ m2.to
 
-theorem C02d_partial (L : Layout) (hL : NoAbs L) (x : Sys) (hx : ReachableEv L x)
+/-- C02 clause (d), every layout -/
+theorem C02d (L : Layout) (x : Sys) (hx : ReachableEv L x)
     (m : Mapping) (hm : m ∈ x.s.active) (k : Key) (hk : k ∈ m.frm) (hV : k ∈ x.V) :
     ∃ m2, m2 ∈ x.s.active ∧ k ∈ m2.to := by
   have hs := hx.reachable.sinv
-  have hc := hx.consumed hL
+  have hc := hx.consumed
   rcases (mem_held x.s k).mp ((hs.vheld k).mp hV) with h1 | h1
   · exact absurd h1 (hc m hm k (Or.inl hk))
   · rcases hs.inv.i.mappedAct k h1 with h2 | h2
     · simp at h2
     · exact h2
 
-/-- monitor form -/
-theorem C02d_monitor (L : Layout) (hL : NoAbs L) (x : Sys) (hx : ReachableEv L x) (e : Event) :
+theorem C02d_full : C02d_statement := C02d
+
+/-- … and also over histories with release-all calls (tablet-mode changes) interleaved -/
+theorem C02d_all (L : Layout) (x : Sys) (hx : Reachable L x)
+    (m : Mapping) (hm : m ∈ x.s.active) (k : Key) (hk : k ∈ m.frm) (hV : k ∈ x.V) :
+    ∃ m2, m2 ∈ x.s.active ∧ k ∈ m2.to := by
+  have hs := hx.sinv
+  have hc := hx.consumed
+  rcases (mem_held x.s k).mp ((hs.vheld k).mp hV) with h1 | h1
+  · exact absurd h1 (hc m hm k (Or.inl hk))
+  · rcases hs.inv.i.mappedAct k h1 with h2 | h2
+    · simp at h2
+    · exact h2
+
+/-- layouts without absorbing mappings (the part that held before the D5 fix): now a corollary -/
+theorem C02d_partial (L : Layout) (_hL : NoAbs L) (x : Sys) (hx : ReachableEv L x)
+    (m : Mapping) (hm : m ∈ x.s.active) (k : Key) (hk : k ∈ m.frm) (hV : k ∈ x.V) :
+    ∃ m2, m2 ∈ x.s.active ∧ k ∈ m2.to :=
+  C02d L x hx m hm k hk hV
+
+/-- monitor form, every layout -/
+theorem C02d_monitor (L : Layout) (x : Sys) (hx : ReachableEv L x) (e : Event) :
     monC02d (x.obs L e) = true ∧ monC02dTag (x.obs L e) = none := by
   have hn := hx.next e
   have h1 : unconsumed (x.obs L e).s'.active (x.obs L e).V' = [] := by
@@ -39,15 +62,15 @@ theorem C02d_monitor (L : Layout) (hL : NoAbs L) (x : Sys) (hx : ReachableEv L x
     simp only [unconsumed, List.mem_flatMap, List.mem_filter, Bool.and_eq_true, List.contains_eq_mem,
       decide_eq_true_eq, Bool.not_eq_eq_eq_not, Bool.not_true, List.any_eq_false] at hk
     obtain ⟨m, hm, hkf, hV, hno⟩ := hk
-    obtain ⟨m2, hm2, hk2⟩ := C02d_partial L hL _ hn m (by simpa [Sys.obs, Sys.next] using hm) k hkf
+    obtain ⟨m2, hm2, hk2⟩ := C02d L _ hn m (by simpa [Sys.obs, Sys.next] using hm) k hkf
       (by simpa [Obs.V', Sys.obs, Sys.next] using hV)
     have := hno m2 (by simpa [Sys.obs, Sys.next] using hm2)
     simp [hk2] at this
   exact ⟨by simp [monC02d, h1], by simp [monC02dTag, newUnconsumed, h1]⟩
 
-/-- D5 witness: `[CAPSLOCK]→[LEFTSHIFT]; [C,CAPSLOCK,B]→[A] absorbing CAPSLOCK; [LEFTSHIFT,A]→[B]`,
-history `CAPSLOCK↓ C↓ B↓ B↑ C↑ LEFTSHIFT↓ A↓`: afterwards `[LEFTSHIFT,A]→[B]` is in effect, LEFTSHIFT is
-held on the virtual keyboard, and no mapping in effect outputs it. -/
+/-- The former D5 witness: `[CAPSLOCK]→[LEFTSHIFT]; [C,CAPSLOCK,B]→[A] absorbing CAPSLOCK; [LEFTSHIFT,A]→[B]`,
+history `CAPSLOCK↓ C↓ B↓ B↑ C↑ LEFTSHIFT↓ A↓`.  Before the fix: afterwards `[LEFTSHIFT,A]→[B]` was in effect,
+LEFTSHIFT (42) was held on the virtual keyboard and no mapping in effect output it. -/
 def d5Layout : Layout :=
   [⟨[58], [42], Repeat.normal, []⟩, ⟨[46, 58, 48], [30], Repeat.normal, [58]⟩, ⟨[42, 30], [48], Repeat.normal, []⟩]
 
@@ -55,22 +78,17 @@ def d5History : List Event :=
   [Event.pressed 58, Event.pressed 46, Event.pressed 48, Event.released 48, Event.released 46,
    Event.pressed 42, Event.pressed 30]
 
-theorem C02d_counterexample :
+/-- Regression for D5 (kernel-checked): with the fix, on the former witness the mapping `[LEFTSHIFT,A]→[B]`
+is in effect, LEFTSHIFT (42) is NOT held on the virtual keyboard any more (only B = 48 is), the last step
+releases it, clause (d) holds of the final state and the monitor gives no tag on the last step. -/
+theorem C02d_d5_fixed :
     let x := Sys.run d5Layout Sys.init (d5History.map Op.ev)
-    (⟨[42, 30], [48], Repeat.normal, []⟩ : Mapping) ∈ x.s.active ∧ 42 ∈ x.V ∧
-    ¬ ∃ m2, m2 ∈ x.s.active ∧ 42 ∈ m2.to := by
+    let y := Sys.run d5Layout Sys.init ((d5History.take 6).map Op.ev)
+    (⟨[42, 30], [48], Repeat.normal, []⟩ : Mapping) ∈ x.s.active ∧ 42 ∉ x.V ∧ x.V = [48] ∧
+    (∀ m ∈ x.s.active, ∀ k ∈ m.frm, k ∈ x.V → ∃ m2, m2 ∈ x.s.active ∧ k ∈ m2.to) ∧
+    (y.obs d5Layout (Event.pressed 30)).evs = [Event.released 42, Event.pressed 48] ∧
+    monC02dTag (y.obs d5Layout (Event.pressed 30)) = none := by
   decide
-
-theorem D5_signature_matches :
-    let x := Sys.run d5Layout Sys.init ((d5History.take 6).map Op.ev)
-    monC02dTag (x.obs d5Layout (Event.pressed 30)) = some "C02:D5" := by
-  decide
-
-theorem C02d_statement_false : ¬ C02d_statement := by
-  intro h
-  have := h d5Layout _ ⟨d5History, rfl⟩ ⟨[42, 30], [48], Repeat.normal, []⟩
-    C02d_counterexample.1 42 (by simp) C02d_counterexample.2.1
-  exact C02d_counterexample.2.2 this
 
 /-! Non-vacuity of the partial theorem: caps-for-movement fragment, CAPSLOCK and N held: the chord is
 in effect, its trigger keys are not on the virtual keyboard, its outputs are. -/
